@@ -296,7 +296,7 @@ class ClassInfo:
         # `@typing.overload` stubs are placeholders: the definition that follows them is the method
         real = [f for f in fs if not any((dotted(d) or "").split(".")[-1] == "overload" for d in getattr(f.node, "decorator_list", []))] or fs
         for f in real:
-            if kind is None and f.kind != "setter":
+            if kind is None and f.kind not in ("setter", "deleter"):
                 return f
             if kind is not None and f.kind == kind:
                 return f
